@@ -392,6 +392,16 @@ def conventional(rng, name, feat=None):
         s.rpc("PushAux", P + ".Aux", ".google.type.Date", cs=True)
         s.rpc("Plain", P + ".Aux", P + ".Aux")
         tags.update(["foreign-request", "foreign-response", "unbound-rpc"])
+    if feat.get("shuffle_numbers", True):
+        # field numbers need not follow declaration order (a field added in a later revision at the top of a message)
+        for fl in (f, tf):
+            for mpb in fl.pb.message_type:
+                if mpb.name.endswith("Request") and rng.random() < 0.35 and len(mpb.field) > 2:
+                    nums = [x.number for x in mpb.field]
+                    rng.shuffle(nums)
+                    for x, nnew in zip(mpb.field, nums):
+                        x.number = nnew
+                    tags.add("field-numbers-out-of-order")
     api.info.update(pkg=pkg, version=ver, ns=ns, name=name, host=host)
     return api
 
@@ -1550,3 +1560,11 @@ def mixin_api(rng, name, mixins, rules_mode, own_iam=None, add_iam=False, transp
     api.options = [f"transport={transport}", "autogen-snippets=false"] + (["add-iam-methods"] if add_iam else [])
     api.info.update(pkg=pkg, version=ver, ns=["vp"], name=name, host=f"{name}.googleapis.com")
     return api
+
+
+def selective_publishing(pkg, methods, internal=False):
+    """publishing section of a service YAML for selective GAPIC generation."""
+    sel = {"methods": list(methods)}
+    if internal:
+        sel["generate_omitted_as_internal"] = True
+    return {"library_settings": [{"version": pkg, "python_settings": {"common": {"selective_gapic_generation": sel}}}]}
